@@ -122,6 +122,11 @@ def scenarios(tier):
             if not quick:
                 pick.append({k: ['E'] for k in keys})
             assigns = pick[:(3 if quick else 64)]
+        if name == 'items_parallel':
+            assigns = [{'a0': ['S'], 'a1': ['S'], 'b0': ['S'], 'b1': ['S'],
+                        'c': ['S']},
+                       {'a0': ['S'], 'a1': ['E'], 'b0': ['S'], 'b1': ['S'],
+                        'c': ['S']}]
         if name == 'reuse_retry':
             assigns = [{'a': ['E', 'E', 'S'], 'b': ['S']},
                        {'a': ['E', 'S'], 'b': ['S']},
